@@ -334,6 +334,7 @@ impl Entities {
     /// This is an awkward separate function to avoid borrowck issues in `SpawnColumnBatchIter`.
     pub fn finish_alloc_many(&mut self, pending_end: usize) {
         self.pending.truncate(pending_end);
+        *self.free_cursor.get_mut() = pending_end as isize;
     }
 
     /// Allocate a specific entity ID, overwriting its generation
